@@ -19,7 +19,7 @@ func init() {
 		LevelText:   "Structural clauses decided for all paths: every operation that can be written to the Raft log has an apply case (and every propagated op a handler); on the functions reachable from Apply/Restore no goroutine writes replicated state, no clock/random/server-local value flows into it and every map iteration is order-insensitive or sorted; the snapshot object holds no pointer to live state; snapshot writer and restore reader agree on the field set and no persisted flag can only ever be set; mutators are guarded by epoch comparisons fed from the Raft index; replayed deletes only tombstone. Equality of end states over all histories and snapshot splits is not decided.",
 		LevelNote:   "Trusted: go/ssa and the CHA call graph; the frozen lists of replicated fields, activation boundary, set-semantics fields and accepted unordered collections in rules/c06.go (one reason each); generated protobuf code.",
 		DesignRef:   "DESIGN.md §4 C06",
-		Explanation: "R06.1 op coverage, R06.2 determinism on the apply path (a goroutines, b nondeterministic sources, c map iteration order), R06.3 snapshot freshness, R06.4 snapshot/restore field agreement and one-sided flags, R06.5 idempotency / epoch stamping, R06.6 replay safety. NOT decided: end-state equality for all histories × snapshot splits; what the commit-log side does on restart.",
+		Explanation: "R06.1 op coverage, R06.2 determinism on the apply path (a goroutines, b nondeterministic sources, c map iteration order), R06.3 snapshot freshness, R06.4 snapshot/restore field agreement and one-sided flags, R06.5 idempotency / epoch stamping, R06.6 replay safety (a created stream is built from the logged op; the tombstone is only ever set), R06.7 lock pairing, R06.8 snapshot restores streams before groups, R07.9 (shared) persisted ISR, R12.5 (shared) group bookkeeping; R06.3 also requires that Persist reads no live state and the snapshot object holds encoded data only; R06.4 that persisted flags with a run-time counterpart are re-applied at load. NOT decided: end-state equality for all histories × snapshot splits; what the commit-log side does on restart.",
 	})
 }
 
@@ -495,6 +495,11 @@ func runC06(c *eng.Ctx) {
 	c.Rule("R07.9", "K2")
 	ruleISRPersisted(c)
 	c.Floor(2)
+	// a snapshot is installed streams first: building a group balances its members over the partitions of their streams,
+	// and a stream that is not there yet has none
+	c.Rule("R06.8", "K2")
+	ruleRestoreOrder(c)
+	c.Floor(1)
 
 	// ---- R06.5 idempotency / epoch stamping
 	c.Rule("R06.5", "K1")
@@ -1070,4 +1075,21 @@ func liveTypeIn(t types.Type, seen map[types.Type]bool, depth int) string {
 		}
 	}
 	return ""
+}
+
+// ruleRestoreOrder (R06.8, shared with C12): Restore re-creates every stream before any consumer group.
+func ruleRestoreOrder(c *eng.Ctx) {
+	fn := c.Fn("server.(*Server).Restore")
+	if fn == nil {
+		return
+	}
+	st := eng.CallsIn(fn, "server.Server.applyCreateStream")
+	gr := eng.CallsIn(fn, "server.Server.applyCreateConsumerGroup")
+	if len(st) != 1 || len(gr) != 1 {
+		c.Unresolved("applyCreateStream / applyCreateConsumerGroup in Server.Restore")
+		return
+	}
+	q := &eng.PathQuery{Fn: fn, FromAfter: []ssa.Instruction{gr[0].(ssa.Instruction)}, Target: func(x ssa.Instruction) bool { return x == st[0].(ssa.Instruction) }}
+	w := q.Find()
+	c.Check(w == nil, "a snapshot restores streams before consumer groups", c.Pos(gr[0].(ssa.Instruction)), "no stream is created after a group was", "Restore can create a consumer group before the streams of the snapshot exist (path "+w.String()+"): newConsumerGroup balances its members over getStreamPartitions(stream), which is 0 for a stream that is not there yet, so after a snapshot install every member is subscribed but no partition has an owner")
 }
